@@ -7,7 +7,7 @@ patch=$(readlink -f "$1"); shift
 base=1
 if [ "${1:-}" = "--no-baseline" ]; then base=0; shift; fi
 d=$(mktemp -d /tmp/bbs.XXXXXX)
-rsync -a --exclude .git /repo/ "$d/"
+if [ -n "${BASE:-}" ]; then git -C /repo archive "$BASE" | tar -x -C "$d"; else rsync -a --exclude .git /repo/ "$d/"; fi
 if ! (cd "$d" && patch --binary -p1 -s < "$patch"); then echo "PATCH FAILED"; rm -rf "$d"; exit 2; fi
 if [ $base = 1 ]; then /verif/tools/baseline.py "$d" | head -5; fi
 cd /verif
